@@ -378,6 +378,10 @@ func roundTripAll(ctx context.Context, fd protoreflect.FileDescriptor, siblings 
 	parsed, err := tool.ParseProto(ctx, files, []string{fd.Path()})
 	if err != nil {
 		class := failureClass(err.Error())
+		if strings.Contains(err.Error(), "invalid character") {
+			// identifiers with non-ASCII letters: the BCL lexer and the compiler accept them, protobuf does not
+			class = "invalid character (identifier with a non-ASCII letter)"
+		}
 		if strings.Contains(err.Error(), "camel-case name") {
 			// enum options that differ only in case: the compiler accepts them, no proto parser does (NOTICE-4)
 			class = "camel-case name conflict of enum values (options that differ only in case)"
@@ -766,9 +770,17 @@ func runC05(cfg *vh.Config) error {
 	// ------------------------------------------------------------ stream 2: compiled j5s packages
 	rp := cfg.R.Fork("c05-packages")
 	nPkg := cfg.Scale(70, 1200)
-	for i := 0; i < nPkg; i++ {
-		p := genPackageOpt(rp, i%5 == 4, true)
-		src := p.text()
+	for i := -1; i < nPkg; i++ {
+		var p *gPackage
+		var src string
+		if i < 0 {
+			// pinned: a schema and a property name with non-ASCII letters (known finding, shared with C16)
+			p = &gPackage{Pkg: "uni.v1"}
+			src = "package uni.v1\n\nobject \u00c9lan {\n\tfield na\u00efve string\n}\n\nobject Plain {\n\tfield ref object:\u00c9lan\n}\n"
+		} else {
+			p = genPackageOpt(rp, i%5 == 4, true)
+			src = p.text()
+		}
 		caseNo++
 		distinct.Add("pkg:" + src)
 		res.Count("compiled")
